@@ -21,6 +21,7 @@ func main() {
 		fmt.Printf("  msg %+v\n", m)
 	}
 	res := pipe.Run(sc)
+	fmt.Println("gopanic", res.GoPanic)
 	fmt.Println("submitted", res.Submitted, "closedOK", res.ClosedOK, "hang", res.CloseHang, "newerr", res.NewErr)
 	for _, o := range res.Outcomes {
 		fmt.Printf("  outcome %+v\n", o)
